@@ -162,6 +162,34 @@ def apply (t : Topo) : Edit → Topo
 
 def run (t : Topo) (es : List Edit) : Topo := es.foldl apply t
 
+/-! ### the command line layer (cmd/bondmachine/bondmachine.go): options that take lists -/
+
+/-- `-del-inputs a,b,…` / `-del-outputs a,b,…`: ids not below the current count are dropped,
+    duplicates removed, the rest deleted highest first -/
+def cliIds (count : Nat) (ks : List Nat) : List Nat :=
+  let kept := ks.foldl (fun acc k => if k < count ∧ k ∉ acc then acc ++ [k] else acc) []
+  (kept.mergeSort (· ≤ ·)).reverse
+
+inductive CliEdit where
+  | addInputs (n : Nat)
+  | addOutputs (n : Nat)
+  | delInputs (ks : List Nat)
+  | delOutputs (ks : List Nat)
+  | addBond (e0 e1 : Bond)
+  | delBonds (is : List Nat)
+deriving Repr
+
+/-- what one invocation of the CLI does, as a sequence of API edits -/
+def expandCli (t : Topo) : CliEdit → List Edit
+  | .addInputs n => List.replicate n .addInput
+  | .addOutputs n => List.replicate n .addOutput
+  | .delInputs ks => (cliIds t.inputs ks).map .delInput
+  | .delOutputs ks => (cliIds t.outputs ks).map .delOutput
+  | .addBond a b => [.addBond a b]
+  | .delBonds is => (is.filter (· < t.links.length)).map .delBond
+
+def applyCli (t : Topo) (e : CliEdit) : Topo := run t (expandCli t e)
+
 /-- does the Go API report an error for this edit (the machine is then unchanged)? -/
 def rejects (t : Topo) : Edit → Bool
   | .delInput k => !(k < t.inputs)
